@@ -465,4 +465,81 @@ Section Copy.
           eapply link_ok_grows; [exact G1|]. apply L0. exact He.
       + intros Hr. destruct (P1 Hr) as (i & Hn & Hbi & Hf). exists i. split; auto. split; auto. apply isfile_not_link; auto.
   Qed.
+
+  (* ---- copyDevice ---- *)
+  Lemma copy_device_spec s s' r cs d x fi : Tgt (s_fs s) cs d x ->
+    copy_device c (tpath cs x) fi s = (s', r) ->
+    stays d s s' /\ s_links s' = s_links s /\ (r = inl tt -> made s' d x).
+  Proof.
+    intros T H. unfold copy_device in H.
+    destruct (i_kind fi) as [p0 es|dd|t|typ rdev];
+      try (unfold fail in H; injection H as <- <-; split; [apply stays_refl; apply T|split; auto; discriminate]).
+    destruct (N.eqb typ S_IFSOCK).
+    - rewrite bind_run, sys_run in H. cbn [fst snd] in H.
+      destruct (sys_mknod_reg c (s_fs s) (tpath cs x) _) as [f1 r1] eqn:E1. cbn [fst snd] in H.
+      pose proof (g_mknod_reg c f0 dr dcs _ cs d x _ f1 r1 T E1) as G1.
+      destruct (t_mknod_reg c f0 dr dcs _ cs d x _ f1 r1 T E1) as (C1 & A1 & P1). fold (mk s f1) in H.
+      rewrite expect_ok_run in H.
+      destruct P1 as [[e ->]|[-> [Hc Hl]]]; injection H as <- <-; (split; [apply stays_grows; auto|split; [reflexivity|]]);
+        [discriminate|].
+      intros _. exists (f_next (s_fs s)). split; [split; [apply Hc|right; apply Hc]|]. split; [apply Hc|exact Hl].
+    - rewrite bind_run, sys_run in H. cbn [fst snd] in H.
+      destruct (sys_mknod c (s_fs s) (tpath cs x) typ _ rdev) as [f1 r1] eqn:E1. cbn [fst snd] in H.
+      pose proof (g_mknod c f0 dr dcs _ cs d x _ _ _ f1 r1 T E1) as G1.
+      destruct (t_mknod c f0 dr dcs _ cs d x _ _ _ f1 r1 T E1) as (C1 & A1 & P1). fold (mk s f1) in H.
+      rewrite expect_ok_run in H.
+      destruct P1 as [[e ->]|[-> [Hc Hl]]]; injection H as <- <-; (split; [apply stays_grows; auto|split; [reflexivity|]]);
+        [discriminate|].
+      intros _. exists (f_next (s_fs s)). split; [split; [apply Hc|right; apply Hc]|]. split; [apply Hc|exact Hl].
+  Qed.
+
+  (* ---- paths of children; names read from a directory ---- *)
+  Lemma tpath_join cs x n : Forall nm dcs -> Forall nm cs -> nm x -> nm n -> join2 (tpath cs x) n = tpath (cs ++ [x]) n.
+  Proof.
+    intros Hd Hcs Hx Hn. unfold FsCopySafeP.tpath.
+    assert (Hall : Forall nm (dcs ++ cs ++ [x])) by (repeat (apply Forall_app; split; auto)).
+    rewrite join2_render by auto. rewrite stk_from_single by (destruct Hn; auto).
+    rewrite cstep_normal by (destruct Hn; auto). simpl rev. rewrite rev_involutive.
+    rewrite <- !app_assoc. reflexivity.
+  Qed.
+
+  Lemma insert_sorted_forall {A} (P : bytes -> Prop) k (v : A) l :
+    P k -> Forall P (map fst l) -> Forall P (map fst (insert_sorted k v l)).
+  Proof.
+    intros Hk. induction l as [|[k' v'] l IH]; simpl; intros H; [constructor; auto|].
+    inversion H; subst. destruct (cmp_bytes k k'); simpl; constructor; auto.
+  Qed.
+
+  Lemma sorted_names_forall (P : bytes -> Prop) l : Forall P l -> Forall P (sorted_names l).
+  Proof.
+    unfold sorted_names, sort_ents. induction 1 as [|a l Ha Hl IH]; simpl; [constructor|].
+    apply insert_sorted_forall; auto.
+  Qed.
+
+  Lemma readdir_names f p names : Inv f0 dr f -> snd (sys_readdir c f p) = RNames names -> Forall okn names.
+  Proof.
+    intros I H. unfold sys_readdir in H. destruct (resolve_ino c f p true) as [i|e]; [|discriminate].
+    destruct (dir_of f i) as [[pp es]|] eqn:Ed; [|discriminate]. simpl in H. inversion H; subst.
+    pose proof (inv_names f0 dr f I i) as Hn. unfold dents in Hn. rewrite Ed in Hn. exact Hn.
+  Qed.
+
+  (* ---- composing steps ---- *)
+  Lemma stays_ok_pre {A} d s1 s2 s3 (r : A + N) : is_dir (s_fs s1) d = true ->
+    stays d s1 s2 -> stays_ok d s2 s3 r -> stays_ok d s1 s3 r.
+  Proof.
+    intros Hd (C2 & A2 & L2) (C3 & A3 & L3). split; auto. split; [eapply above_trans; eauto|auto].
+  Qed.
+
+  Lemma stays_ok_seq {A B} d s1 s2 s3 (a : A) (r : B + N) : is_dir (s_fs s1) d = true ->
+    stays_ok d s1 s2 (@inl A N a) -> stays_ok d s2 s3 r -> stays_ok d s1 s3 r.
+  Proof.
+    intros Hd (C2 & A2 & L2) (C3 & A3 & L3). split; auto. split; [eapply above_trans; eauto|].
+    intros Hr L1. apply L3; auto. apply L2; auto. exists a. reflexivity.
+  Qed.
+
+  Lemma stays_ok_fail {A B} d s s' (r : A + N) (e : N) : stays_ok d s s' r -> stays_ok d s s' (@inr B N e).
+  Proof. intros (C & A0 & _). split; auto. split; auto. intros [a Ha]. discriminate. Qed.
+
+  Lemma stays_ok_below {A} d d1 q s s' (r : A + N) : chain (s_fs s) d q d1 -> stays_ok d1 s s' r -> stays_ok d s s' r.
+  Proof. intros Hq (C & A0 & L). split; auto. split; auto. eapply above_mono; eauto. Qed.
 End Copy.
